@@ -89,7 +89,7 @@ def edits(s, r, k):
     return s
 
 
-def check_roundtrip(rep, t, ns, r, ew, sec, enc, items):
+def check_roundtrip(rep, t, ns, r, ew, sec, enc, items, master=False):
     def encode(num, d, kind):
         if enc == 0:
             return num
@@ -109,14 +109,30 @@ def check_roundtrip(rep, t, ns, r, ew, sec, enc, items):
     else:
         dns, dew = ns, ew
     exp = f'{t}{ns}{r}{ew}{sec:02d}'
-    obj = TRS.from_twprgesec(twp, rge, s_in, default_ns=dns, default_ew=dew)
+    if master:
+        # the directions come from MasterConfig at the time of the call (no keyword); restored afterwards
+        from pytrs.parser.config.master_config import MasterConfig
+        old_mc = (MasterConfig.default_ns, MasterConfig.default_ew)
+        MasterConfig.default_ns, MasterConfig.default_ew = dns, dew
+        try:
+            obj = TRS.from_twprgesec(twp, rge, s_in)
+            o2 = TRS()
+            o2.set_twprgesec(twp, rge, s_in)
+            if o2.trs != obj.trs:
+                rep.violation('failing-input', {'call': 'set_twprgesec vs from_twprgesec (MasterConfig defaults)', 'twp': twp, 'rge': rge,
+                                                'sec': s_in, 'MasterConfig': [dns, dew], 'observed': [o2.trs, obj.trs]})
+        finally:
+            MasterConfig.default_ns, MasterConfig.default_ew = old_mc
+    else:
+        obj = TRS.from_twprgesec(twp, rge, s_in, default_ns=dns, default_ew=dew)
     ok = (obj.trs == exp and obj.twp_num == t and obj.rge_num == r and obj.sec_num == sec and obj.twp_ns == ns
           and obj.rge_ew == ew and obj.twp == f'{t}{ns}' and obj.rge == f'{r}{ew}' and obj.sec == f'{sec:02d}'
           and obj.twprge == f'{t}{ns}{r}{ew}' and TRS(obj.trs).trs == exp and TRS(obj.trs) == obj
           and hash(TRS(obj.trs)) == hash(obj) and pytrs.Tract('x', trs=exp).trs == exp)
     if not ok:
         rep.violation('failing-input', {'call': 'from_twprgesec', 'twp': twp, 'rge': rge, 'sec': s_in,
-                                        'default_ns': dns, 'default_ew': dew, 'expected': exp, 'observed': obj.trs})
+                                        'default_ns': dns, 'default_ew': dew, 'defaults_via': 'MasterConfig' if master else 'keyword',
+                                        'expected': exp, 'observed': obj.trs})
     items.append((impl.line_trs_construct(twp, rge, s_in, dns, dew, False), impl.impl_trs_construct(twp, rge, s_in, dns, dew, False),
                   {'op': 'construct_trs', 'args': [twp, rge, s_in, dns, dew]}))
     rep.nontrivial(('rt', t, ns, r, ew, sec, enc))
@@ -138,6 +154,27 @@ def check_strict(rep, s, items):
             rep.violation('failing-input', {'call': 'idempotence', 'input': s, 'first': str(first), 'second': str(again)})
     items.append((impl.line_trs_to_dict(s), impl.impl_trs_to_dict(s), {'op': 'trs_to_dict', 'input': s}))
     rep.nontrivial(('st', s))
+    # "a township, range or section that is individually the error or undefined placeholder is reported as such":
+    # is_error / is_undef for every selection of components, read off the expected string alone
+    k = min(i for i, ch in enumerate(exp) if ch in 'nsz')        # the township ends with its direction letter (or the placeholder's z)
+    p_t, p_r, p_s = exp[:k + 1], exp[k + 1:-2], exp[-2:]
+    e_t, e_r, e_s = p_t == 'XXXz', p_r == 'XXXz', p_s == 'XX'
+    u_t, u_r, u_s = p_t == '___z', p_r == '___z', p_s == '__'
+    o = TRS(s)
+    tr = pytrs.Tract('x', trs=s)
+    for bits in range(8):
+        a, b, c = bool(bits & 1), bool(bits & 2), bool(bits & 4)
+        want_e = (a and e_t) or (b and e_r) or (c and e_s)
+        want_u = (a and u_t) or (b and u_r) or (c and u_s)
+        got_e = [bool(o.is_error(a, b, c)), bool(tr.trs_is_error(a, b, c))]
+        got_u = [bool(o.is_undef(a, b, c)), bool(tr.trs_is_undef(a, b, c))]
+        if got_e != [want_e] * 2 or got_u != [want_u] * 2:
+            rep.violation('failing-input', {'call': f'is_error / is_undef (twp={a}, rge={b}, sec={c})', 'input': s, 'trs': exp,
+                                            'expected': [want_e, want_u], 'observed': [got_e, got_u]})
+            break
+    if [bool(o.is_error()), bool(o.is_undef())] != [e_t or e_r or e_s, u_t or u_r or u_s]:
+        rep.violation('failing-input', {'call': 'is_error() / is_undef() with default arguments', 'input': s, 'trs': exp,
+                                        'observed': [bool(o.is_error()), bool(o.is_undef())]})
 
 
 def run(ctx):
@@ -150,7 +187,14 @@ def run(ctx):
         t = r.choice(edge) if r.chance(1, 3) else r.range(0, 999)
         rg = r.choice(edge) if r.chance(1, 3) else r.range(0, 999)
         sec = r.choice([0, 1, 9, 10, 36, 99]) if r.chance(1, 3) else r.range(0, 99)
-        safely(rep, 'roundtrip', check_roundtrip, t, r.choice('ns'), rg, r.choice('ew'), sec, r.below(5), items)
+        ns, ew, enc = r.choice('ns'), r.choice('ew'), r.below(5)
+        safely(rep, 'roundtrip', check_roundtrip, t, ns, rg, ew, sec, enc, items)
+        if i % 3 == 0:
+            # the same components again, directions taken from MasterConfig, first one way and then the other
+            flip = {'n': 's', 's': 'n', 'e': 'w', 'w': 'e'}
+            safely(rep, 'roundtrip (MasterConfig)', check_roundtrip, t, ns, rg, ew, sec, enc, [], True)
+            safely(rep, 'roundtrip (MasterConfig)', check_roundtrip, t, flip[ns], rg, flip[ew], sec, enc, [], True)
+            rep.count(2)
     bases = []
     for i in range(ctx.budget(2500, 300000)):
         r = rng.fork(500000 + i)
